@@ -752,6 +752,30 @@ Section Flatten.
   Qed.
 End Flatten.
 
+(* every pulled item yields at least one output: n outputs need at most n pulls
+   (flatten_by with any depth, on a source without empty rows) *)
+Section MultiBound.
+  Context {I O : Type}.
+  Variable g : nat -> I -> list O.
+
+  Lemma multis_length_ge (src : nat -> I) k : (forall i, g i (src i) <> []) -> k <= length (multis g src k).
+  Proof.
+    intro H. induction k as [|k IH]; [simpl; lia|].
+    rewrite multis_S, app_length. specialize (H k). destruct (g k (src k)); [contradiction|simpl; lia].
+  Qed.
+
+  Lemma multi_bound (src : nat -> I) n fuel :
+    (forall i, g i (src i) <> []) -> n <= fuel ->
+    exists k, k <= n /\ run_until (m_multi g) src n fuel = Done (firstn n (multis g src n)) k.
+  Proof.
+    intros Hne Hf.
+    destruct (run_bounded_src (m_multi g) src n n) with (fuel := fuel) as (k & Hk & Hrun); [|exact Hf|].
+    - unfold ready. rewrite trace_multi. simpl. rewrite andb_true_r. apply Nat.leb_le.
+      apply multis_length_ge. exact Hne.
+    - exists k. split; [exact Hk|]. rewrite Hrun, trace_multi. reflexivity.
+  Qed.
+End MultiBound.
+
 (* ---- prepend / merge with a finite list on the left ----------------------------------- *)
 Section Prepend.
   Context {I : Type}.
@@ -1155,7 +1179,7 @@ Qed.
 (* stages whose demand does not depend on the items *)
 Definition regular (s : stage) : bool :=
   match s with
-  | SFilterMod _ _ | SFlatten | SUniquify | SGroup | STruthy | SUnionFinL _ | SFilterNotIn _ => false
+  | SFilterMod _ _ | SFlatten | SUniquify | SGroup | STruthy | SUnionFinL _ | SFilterNotIn _ | SFlattenBy _ => false
   | SWindows k | SChunks k => negb (k =? 0)
   | SStride _ s => negb (s =? 0)
   | _ => true
@@ -1261,6 +1285,11 @@ Example flatten_bound_ex : exists k, k <= 5 /\
   run_until m_flatten (fun i => [Z.of_nat i; 7%Z]) 5 5
   = Done (firstn 5 (concat (prefix (fun i => [Z.of_nat i; 7%Z]) 5))) k.
 Proof. apply flatten_bound; [discriminate|lia]. Qed.
+
+Example flatten_by_ex : exists k, k <= 4 /\
+  run_until (m_multi (fun _ x => vflat_item 2 x)) (fun i => VL [VZ (Z.of_nat i)]) 4 4
+  = Done (firstn 4 (multis (fun _ x => vflat_item 2 x) (fun i => VL [VZ (Z.of_nat i)]) 4)) k.
+Proof. apply multi_bound; [discriminate|lia]. Qed.
 
 Example stride_exact_ex :
   run_until (m_stride 1 3) Z.of_nat 3 8 = Done [1; 4; 7]%Z 8.
